@@ -2,6 +2,7 @@
 import ast
 
 from vk import fabio, pools, rules, formulas
+from vk import replicate
 from vk.fabio import Num, N, D, Roles, Ratio
 from vk.formulas import A
 from vk.poly import Poly
@@ -376,9 +377,9 @@ def output_rules(ctx):
     ctx.check(len(g) == 1 and [norm(b) for b in g[0].body] == ["output['grid_level'] = all_data[-1]"], f"{P}.NAME-ORDER",
               fo.site, "grid_level is the last array", "grid_level pairing changed", key="grid")
     fs = prog.func(MA, "Mandoline.fields_in_slice", P)
-    e = {norm(n.targets[0]): norm(n.value) for n in walk_no_nested(fs.node) if isinstance(n, ast.Assign)}
-    ok = e.get("field_names") == "[all_names[idx] for idx in self.fidxs if idx is not None]" and \
-        e.get("all_names") == "[name for name in self.fields]"
+    fenv = local_env(fs.node)
+    e = [rules.deep(n.value, fenv, fs.params) for n in walk_no_nested(fs.node) if isinstance(n, ast.Return)]
+    ok = e == ["[list(self.fields)[idx] for idx in self.fidxs if idx is not None]"]
     ctx.check(ok, f"{P}.NAME-ORDER", fs.site, "names follow fidxs order, skipping grid_level (None)",
               f"fields_in_slice builds {e}")
     sc = prog.func(MA, "Mandoline.slice_plane_coordinates", P)
@@ -409,11 +410,7 @@ def output_rules(ctx):
     formulas.rule_level_range(ctx, f"{P}.LEVEL-RANGE", sl)
     # expand_array: each in-plane axis repeated by factor
     ea = prog.func("amr_kitchen/mandoline/utils.py", "expand_array", P)
-    e = [norm(n.value) for n in walk_no_nested(ea.node) if isinstance(n, ast.Assign)]
-    ok = e == ["np.repeat(arr, factor).reshape(arr.shape[0], arr.shape[1] * factor)",
-               "np.repeat(exp, factor, axis=0).reshape(arr.shape[0] * factor, arr.shape[1] * factor)"]
-    ctx.check(ok, f"{P}.EXPAND", ea.site, "expand_array repeats each in-plane axis by factor (values unchanged)",
-              f"expand_array is {e}")
+    replicate.rule(ctx, f"{P}.EXPAND", ea, 2, "expand_array repeats each in-plane axis by factor (values unchanged)")
 
 
 def run(ctx):
